@@ -23,6 +23,7 @@ import time
 
 sys.path.insert(0, os.path.dirname(os.path.abspath(__file__)))
 import common as C  # noqa: E402
+sys.path.insert(0, os.path.join(os.path.dirname(os.path.abspath(__file__))))
 
 
 def shrink(part, case_line, fails):
@@ -56,6 +57,16 @@ def shrink(part, case_line, fails):
                 improved = True
                 break
     return C.show_case(case)
+
+
+def oracle_verdicts(part, cases, impl, shards=C.NPROC):
+    """verdict per case: "1..." = the implementation's observation is consistent with the property.
+    Coq-extracted oracle (Spec side) when the part has one, and/or a Python check of facts that can be
+    read off the observation alone (used only for the search for a failing input)."""
+    res = C.run_oracle(part.engine, cases, impl, shards=shards) if part.has_oracle else ["1"] * len(cases)
+    if hasattr(part, "py_oracle"):
+        res = [r if not r.startswith("1") else part.py_oracle(c, a) for r, c, a in zip(res, cases, impl)]
+    return res
 
 
 def run(pid, tier, seed, replay=None):
@@ -104,7 +115,7 @@ def run(pid, tier, seed, replay=None):
                         broken.append("correspondence: debug and release builds differ on %s" % c)
                         break
         model = C.run_model(part.engine, cases)
-        oracle = C.run_oracle(part.engine, cases, impl) if part.has_oracle else ["1"] * len(cases)
+        oracle = oracle_verdicts(part, cases, impl)
         evaluations += len(cases)
         traces += len(cases)
         seen = set()
@@ -159,14 +170,14 @@ def run(pid, tier, seed, replay=None):
 
         def fails(ls):
             im = C.run_harness(part.engine, ls, shards=1)
-            orc = C.run_oracle(part.engine, ls, im, shards=1)
+            orc = oracle_verdicts(part, ls, im, shards=1)
             return [(not x.startswith("1")) and mod.known_signature(part, l, y, x) is None
                     for l, y, x in zip(ls, im, orc)]
 
         small = shrink(part, c, fails)
         im = C.run_harness(part.engine, [small], shards=1)[0]
         mo = C.run_model(part.engine, [small], shards=1)[0]
-        orc = C.run_oracle(part.engine, [small], [im], shards=1)[0]
+        orc = oracle_verdicts(part, [small], [im], shards=1)[0]
         rp = C.write_replay(pid, {
             "kind": "failing-input", "part": pn, "engine": part.engine, "seed": seed, "case": small,
             "case_readable": part.readable(small), "original_case": c, "impl_observation": im,
